@@ -20,6 +20,10 @@ mod system;
 pub mod tracing;
 mod util;
 
+#[cfg(pendulum_project_ntpd_rs_verif)]
+#[path = "/verif/hooks/ntpd_daemon.rs"]
+pub mod verif_hook;
+
 use std::{error::Error, io::IsTerminal, path::Path};
 
 use ::tracing::info;
